@@ -1,1 +1,528 @@
-/- C18 — property theorems (stub: not built yet). -/
+/-
+C18 — Hitsound copy moves sounds, never notes, and loses nothing it promises to keep.
+
+Property theorems about the executable model `Reamber/Model/Hitsound.lean` (`copyWith σs σt src tgt`), stated
+against the declarative clauses of `Reamber/Spec/Hitsound.lean` — the same definitions whose `Bool` forms the
+driver evaluates on the implementation's output (`*_iff` below ties the two forms).  All theorems hold for
+*every* pair of charts and *every* pair of sorting permutations (numpy's quicksort is not stable).
+
+  notes_preserved      hypothesis: every target hold has a length  (counterexample without it: D19d)
+  counts_le            no hypothesis
+  all_placed_if_room   no hypothesis
+  no_invention         hypothesis: no source file name contains ';'  (counterexample without it: D19c)
+  samples_conserved    same hypothesis; proved as an exact balance (`file_balance`)
+
+"Neither input is modified" is not a statement about a pure function; it is observed by the harness.
+-/
+import Reamber.Lemmas.Hitsound
+import Reamber.Generated.Hitsound
+
+namespace Reamber.Hitsound
+
+open Reamber.Timing (gather IsPerm)
+
+/-- Tie to the source: the constants of the model are the ones the translator read from
+`hitsound_copy.py` (`HS_CLAP/FINISH/WHISTLE`, the join and split separators) and from
+`OsuMap.reset_samples` / `OsuSampleSet.AUTO`. Re-checked whenever the source changes. -/
+theorem consts_tie :
+    hsClap = Generated.hsClap ∧ hsFinish = Generated.hsFinish ∧ hsWhistle = Generated.hsWhistle ∧
+    [sep] = Generated.joinSep ∧ [sep] = Generated.splitSep ∧
+    resetSet = Generated.resetHitsoundSet ∧ resetSet = Generated.resetSampleSet ∧
+    resetSet = Generated.resetAdditionSet ∧ resetCustom = Generated.resetCustomSet ∧
+    resetFile = Generated.resetHitsoundFile ∧
+    Generated.filterColumns = ["addition_set", "custom_set", "hitsound_set", "sample_set", "hitsound_file"] ∧
+    Generated.resetBeforeStack = true ∧ Generated.overflowKeepsGoing = true := by decide
+
+/-- `σs`, `σt` are permutations of the row positions of the (filtered) source frame and of the target frame —
+what `sort_values` returns, for any tie order -/
+structure PermsOk (σs σt : List Nat) (src tgt : Chart) : Prop where
+  hs : IsPerm σs
+  ls : σs.length = ((concatNotes src).filter active).length
+  ht : IsPerm σt
+  lt : σt.length = (concatNotes tgt).length
+
+/-! ### the shape of the result -/
+
+def df0 (σt : List Nat) (tgt : Chart) : List Note := gather (concatNotes (resetSamples tgt)) σt
+
+def finalDf (σs σt : List Nat) (src tgt : Chart) : List Note :=
+  (keysRat ((srcSorted σs src).map (·.offset))).foldl
+    (fun d t => fillRows t d (queue (srcSorted σs src) t)) (df0 σt tgt)
+
+def finalEvs (σs σt : List Nat) (src tgt : Chart) : List Ev :=
+  (keysRat ((srcSorted σs src).map (·.offset))).flatMap
+    (fun t => evsOf t ((queue (srcSorted σs src) t).drop (((df0 σt tgt).map (·.offset)).countP (· == t))))
+
+theorem copyWith_eq (σs σt : List Nat) (src tgt : Chart) :
+    copyWith σs σt src tgt
+      = ⟨(finalDf σs σt src tgt).filter (fun n => n.length.isNone),
+         (finalDf σs σt src tgt).filter (fun n => n.length.isSome), finalEvs σs σt src tgt⟩ := by
+  have hoff : ((srcSorted σs src).map toSRow).map (fun r => r.offset) = (srcSorted σs src).map (fun n => n.offset) := by
+    rw [List.map_map]; rfl
+  have h0 : copyWith σs σt src tgt =
+      ⟨(keysLoop ((srcSorted σs src).map toSRow) ((df0 σt tgt).map (·.offset))
+          (keysRat (((srcSorted σs src).map toSRow).map (fun r => r.offset))) (df0 σt tgt, [])).1.filter (fun n => n.length.isNone),
+       (keysLoop ((srcSorted σs src).map toSRow) ((df0 σt tgt).map (·.offset))
+          (keysRat (((srcSorted σs src).map toSRow).map (fun r => r.offset))) (df0 σt tgt, [])).1.filter (fun n => n.length.isSome),
+       (keysLoop ((srcSorted σs src).map toSRow) ((df0 σt tgt).map (·.offset))
+          (keysRat (((srcSorted σs src).map toSRow).map (fun r => r.offset))) (df0 σt tgt, [])).2⟩ := rfl
+  rw [h0, hoff, keysLoop_eq (srcSorted σs src) ((df0 σt tgt).map (·.offset))
+    (keysRat ((srcSorted σs src).map (fun n => n.offset))) (df0 σt tgt, []) rfl]
+  simp [finalDf, finalEvs]
+
+theorem notesOf_copyWith_perm (σs σt : List Nat) (src tgt : Chart) :
+    (notesOf (copyWith σs σt src tgt)).Perm (finalDf σs σt src tgt) := by
+  rw [copyWith_eq]
+  have : (fun n : Note => n.length.isSome) = (fun n => !(fun n : Note => n.length.isNone) n) := by
+    funext n; cases h : n.length <;> simp [h]
+  simp only [notesOf, this]
+  exact List.filter_append_perm _ _
+
+theorem count_offsets (df : List Note) (t : Rat) :
+    (df.map (·.offset)).countP (· == t) = (df.filter (fun n => n.offset == t)).length := by
+  rw [List.countP_map, List.countP_eq_length_filter]; rfl
+
+theorem finalDf_at (σs σt : List Nat) (src tgt : Chart) (u : Rat) :
+    (finalDf σs σt src tgt).filter (fun n => n.offset == u)
+      = zipApply (queue (srcSorted σs src) u) ((df0 σt tgt).filter (fun n => n.offset == u)) := by
+  unfold finalDf
+  rw [foldl_fill_filter _ _ (nodup_keysRat _)]
+  split
+  · rfl
+  · rename_i h
+    rw [mem_keysRat] at h
+    have : (srcSorted σs src).filter (fun n => n.offset == u) = [] := by
+      rw [List.filter_eq_nil_iff]
+      intro n hn hc
+      apply h
+      simp only [beq_iff_eq] at hc
+      exact List.mem_map.mpr ⟨n, hn, hc⟩
+    rw [queue_nil _ _ this, zipApply_nil]
+
+theorem finalEvs_at (σs σt : List Nat) (src tgt : Chart) (u : Rat) :
+    (finalEvs σs σt src tgt).filter (fun e => e.offset == u)
+      = evsOf u ((queue (srcSorted σs src) u).drop ((df0 σt tgt).filter (fun n => n.offset == u)).length) := by
+  unfold finalEvs
+  rw [filter_flatMap_key (fun e : Ev => e.offset) _ (fun t e he => evsOf_offset t _ e he) _ (nodup_keysRat _) u]
+  split
+  · rw [count_offsets]
+  · rename_i h
+    rw [mem_keysRat] at h
+    have : (srcSorted σs src).filter (fun n => n.offset == u) = [] := by
+      rw [List.filter_eq_nil_iff]
+      intro n hn hc
+      apply h
+      simp only [beq_iff_eq] at hc
+      exact List.mem_map.mpr ⟨n, hn, hc⟩
+    rw [queue_nil _ _ this]; simp [evsOf]
+
+theorem countP_at (p : Note → Bool) (u : Rat) (l : List Note) :
+    l.countP (fun n => n.offset == u && p n) = (l.filter (fun n => n.offset == u)).countP p := by
+  rw [List.countP_filter]
+  apply List.countP_congr
+  intro n _
+  simp [Bool.and_comm]
+
+/-- counting result notes at a time = counting over the reset rows of that time with the queue applied -/
+theorem cnt_out (σs σt : List Nat) (src tgt : Chart) (p : Note → Bool) (u : Rat) :
+    cnt p u (copyWith σs σt src tgt)
+      = (zipApply (queue (srcSorted σs src) u) ((df0 σt tgt).filter (fun n => n.offset == u))).countP p := by
+  unfold cnt
+  rw [(notesOf_copyWith_perm σs σt src tgt).countP_eq, countP_at, finalDf_at]
+
+theorem isReset_resetNote (n : Note) : isReset (resetNote n) := by
+  simp [isReset, resetNote, resetSet, resetCustom, resetFile]
+
+theorem df0_reset (σs σt : List Nat) (src tgt : Chart) (h : PermsOk σs σt src tgt) : ∀ r ∈ df0 σt tgt, isReset r := by
+  intro r hr
+  have hl : σt.length = (concatNotes (resetSamples tgt)).length := by
+    rw [h.lt]; simp [concatNotes, resetSamples]
+  rw [df0, (gather_perm _ _ h.ht hl).mem_iff] at hr
+  simp only [concatNotes, resetSamples, List.map_map, List.mem_append, List.mem_map] at hr
+  rcases hr with ⟨n, _, rfl⟩ | ⟨n, _, rfl⟩
+  · exact isReset_resetNote n
+  · exact isReset_resetNote n
+
+theorem df0_at_reset (σs σt : List Nat) (src tgt : Chart) (h : PermsOk σs σt src tgt) (u : Rat) :
+    ∀ r ∈ (df0 σt tgt).filter (fun n => n.offset == u), isReset r :=
+  fun r hr => df0_reset σs σt src tgt h r (List.mem_filter.mp hr).1
+
+/-- counting over the sorted, filtered source rows of a time = counting over the source chart, for every
+predicate that only holds on rows the filter keeps and does not look at the length -/
+theorem src_count (σs σt : List Nat) (src tgt : Chart) (h : PermsOk σs σt src tgt) (p : Note → Bool)
+    (hact : ∀ n, p n = true → active n = true) (hlen : ∀ n : Note, p { n with length := none } = p n) (u : Rat) :
+    ((srcSorted σs src).filter (fun n => n.offset == u)).countP p = cnt p u src := by
+  rw [← countP_at, srcSorted, (gather_perm _ _ h.hs h.ls).countP_eq, List.countP_filter]
+  have h1 : (concatNotes src).countP (fun a => (a.offset == u && p a) && active a)
+      = (concatNotes src).countP (fun a => a.offset == u && p a) := by
+    apply List.countP_congr
+    intro n _
+    simp only [Bool.and_eq_true]
+    exact ⟨fun hh => hh.1, fun hh => ⟨hh, hact n hh.2⟩⟩
+  rw [h1]
+  simp only [cnt, notesOf, concatNotes, List.countP_append, List.countP_map]
+  congr 1
+  apply List.countP_congr
+  intro n _
+  simp only [Function.comp, hlen]
+
+theorem bit_active (m : Nat) (hm : hasBit 0 m = false) (n : Note) (h : hasBit n.hs m = true) : active n = true := by
+  have : n.hs ≠ 0 := by
+    intro h0; rw [h0, hm] at h; exact absurd h (by simp)
+  simp [active, this]
+
+theorem hasBit_zero_clap : hasBit 0 hsClap = false := by decide
+theorem hasBit_zero_finish : hasBit 0 hsFinish = false := by decide
+theorem hasBit_zero_whistle : hasBit 0 hsWhistle = false := by decide
+
+/-- result count of one of the three bits at a time -/
+theorem out_bit (σs σt : List Nat) (src tgt : Chart) (h : PermsOk σs σt src tgt) (m : Nat) (hm : hasBit 0 m = false)
+    (u : Rat) :
+    cnt (fun n => hasBit n.hs m) u (copyWith σs σt src tgt)
+      = ((queue (srcSorted σs src) u).take ((df0 σt tgt).filter (fun n => n.offset == u)).length).countP (pBit m) := by
+  rw [cnt_out, zipApply_bit m hm _ _ (df0_at_reset σs σt src tgt h u)]
+
+/-- source count of a bit at a time = what the queue of that time carries -/
+theorem queue_bit (σs σt : List Nat) (src tgt : Chart) (h : PermsOk σs σt src tgt) (m : Nat) (hm : hasBit 0 m = false)
+    (hq : ∀ (G : List Note) (v : Int), (queueG G v).countP (pBit m) = G.countP (fun n => hasBit n.hs m)) (u : Rat) :
+    (queue (srcSorted σs src) u).countP (pBit m) = cnt (fun n => hasBit n.hs m) u src := by
+  rw [queue_count _ u (pBit m) (fun n => hasBit n.hs m) (fun G v _ => hq G v)]
+  exact src_count σs σt src tgt h _ (bit_active m hm) (fun _ => rfl) u
+
+theorem bit_le (σs σt : List Nat) (src tgt : Chart) (h : PermsOk σs σt src tgt) (m : Nat) (hm : hasBit 0 m = false)
+    (hq : ∀ (G : List Note) (v : Int), (queueG G v).countP (pBit m) = G.countP (fun n => hasBit n.hs m)) (u : Rat) :
+    cnt (fun n => hasBit n.hs m) u (copyWith σs σt src tgt) ≤ cnt (fun n => hasBit n.hs m) u src := by
+  rw [out_bit σs σt src tgt h m hm, ← queue_bit σs σt src tgt h m hm hq]
+  exact (List.take_sublist _ _).countP_le
+
+/-! ### the property theorems -/
+
+/-- **[M] no more claps, finishes or whistles per time than the source had** — for all charts, all
+multiplicities, all volume groupings, all tie orders. -/
+theorem counts_le (σs σt : List Nat) (src tgt : Chart) (h : PermsOk σs σt src tgt) :
+    CountsLe src (copyWith σs σt src tgt) := by
+  intro t
+  simp only [countsLeAt, Bool.and_eq_true, decide_eq_true_eq]
+  exact ⟨⟨bit_le σs σt src tgt h hsClap hasBit_zero_clap queueG_clap t,
+          bit_le σs σt src tgt h hsFinish hasBit_zero_finish queueG_finish t⟩,
+         bit_le σs σt src tgt h hsWhistle hasBit_zero_whistle queueG_whistle t⟩
+
+theorem mem_out_at (σs σt : List Nat) (src tgt : Chart) (n : Note) (hn : n ∈ notesOf (copyWith σs σt src tgt)) :
+    n ∈ zipApply (queue (srcSorted σs src) n.offset) ((df0 σt tgt).filter (fun r => r.offset == n.offset)) := by
+  rw [(notesOf_copyWith_perm σs σt src tgt).mem_iff] at hn
+  rw [← finalDf_at]
+  exact List.mem_filter.mpr ⟨hn, by simp⟩
+
+/-- **[M] as many as the target's notes at that time can hold**: while a result note of time `t` is left
+without a sound, every clap, finish and whistle of the source at `t` is on a result note and no named sample of
+`t` was pushed to the event samples. -/
+theorem all_placed_if_room (σs σt : List Nat) (src tgt : Chart) (h : PermsOk σs σt src tgt) :
+    AllPlacedIfRoom src (copyWith σs σt src tgt) := by
+  intro n hn hu
+  have hmem := mem_out_at σs σt src tgt n hn
+  have hroom := zipApply_room _ _ (queue_used _ _) n hmem hu
+  have htake : (queue (srcSorted σs src) n.offset).take ((df0 σt tgt).filter (fun r => r.offset == n.offset)).length
+      = queue (srcSorted σs src) n.offset := List.take_of_length_le (by omega)
+  have hbit : ∀ (m : Nat) (hm : hasBit 0 m = false)
+      (_ : ∀ (G : List Note) (v : Int), (queueG G v).countP (pBit m) = G.countP (fun n => hasBit n.hs m)),
+      cnt (fun n => hasBit n.hs m) n.offset src ≤ cnt (fun n => hasBit n.hs m) n.offset (copyWith σs σt src tgt) := by
+    intro m hm hq
+    rw [out_bit σs σt src tgt h m hm, htake, queue_bit σs σt src tgt h m hm hq]
+    exact Nat.le_refl _
+  simp only [allPlacedAt, Bool.and_eq_true, decide_eq_true_eq, List.all_eq_true, bne_iff_ne, ne_eq]
+  refine ⟨⟨⟨hbit hsClap hasBit_zero_clap queueG_clap, hbit hsFinish hasBit_zero_finish queueG_finish⟩,
+           hbit hsWhistle hasBit_zero_whistle queueG_whistle⟩, ?_⟩
+  intro e he heq
+  have he' : e ∈ (copyWith σs σt src tgt).samples.filter (fun e => e.offset == n.offset) :=
+    List.mem_filter.mpr ⟨he, by simp [heq]⟩
+  rw [copyWith_eq] at he'
+  simp only [finalEvs_at] at he'
+  rw [List.drop_of_length_le (by omega)] at he'
+  simp [evsOf] at he'
+
+theorem noSepL_srcSorted (σs σt : List Nat) (src tgt : Chart) (h : PermsOk σs σt src tgt) (hsep : noSep src = true) :
+    NoSepL (srcSorted σs src) := by
+  intro n hn
+  rw [srcSorted, (gather_perm _ _ h.hs h.ls).mem_iff, List.mem_filter] at hn
+  have hn := hn.1
+  simp only [noSep, notesOf, List.all_eq_true, List.mem_append, Bool.not_eq_true', List.contains_eq_mem,
+    decide_eq_false_iff_not] at hsep
+  simp only [concatNotes, List.mem_append, List.mem_map] at hn
+  rcases hn with ⟨x, hx, rfl⟩ | hn
+  · exact hsep x (Or.inl hx)
+  · exact hsep n (Or.inr hn)
+
+theorem file_active (f : File) (hf : f ≠ []) (n : Note) (h : (n.file == f) = true) : active n = true := by
+  have : n.file ≠ [] := by
+    intro h0; rw [h0] at h; simp only [beq_iff_eq] at h; exact hf h.symm
+  simp [active, this]
+
+theorem countP_ev_at (f : File) (u : Rat) (l : List Ev) :
+    l.countP (fun e => e.offset == u && e.file == f) = (l.filter (fun e => e.offset == u)).countP (fun e => e.file == f) := by
+  rw [List.countP_filter]
+  apply List.countP_congr
+  intro n _
+  simp [Bool.and_comm]
+
+/-- **the exact balance of named samples per time**: what the source has at `t` under the name `f` is what the
+result carries on notes at `t` plus what it carries as event samples at `t`. -/
+theorem file_balance (σs σt : List Nat) (src tgt : Chart) (h : PermsOk σs σt src tgt) (hsep : noSep src = true)
+    (t : Rat) (f : File) (hf : f ≠ []) :
+    fileCntNotes src t f
+      = fileCntNotes (copyWith σs σt src tgt) t f + fileCntEvs (copyWith σs σt src tgt) t f := by
+  have hS := noSepL_srcSorted σs σt src tgt h hsep
+  have h1 : fileCntNotes (copyWith σs σt src tgt) t f
+      = ((queue (srcSorted σs src) t).take ((df0 σt tgt).filter (fun n => n.offset == t)).length).countP (pFile f) := by
+    show cnt (fun n => n.file == f) t _ = _
+    rw [cnt_out, zipApply_file f hf _ _ (df0_at_reset σs σt src tgt h t)]
+  have h2 : fileCntEvs (copyWith σs σt src tgt) t f
+      = ((queue (srcSorted σs src) t).drop ((df0 σt tgt).filter (fun n => n.offset == t)).length).countP (pFile f) := by
+    unfold fileCntEvs
+    rw [countP_ev_at, copyWith_eq]
+    simp only [finalEvs_at, evsOf_countP]
+  have h3 : (queue (srcSorted σs src) t).countP (pFile f) = fileCntNotes src t f := by
+    rw [queue_count _ t (pFile f) (fun n => n.file == f)
+      (fun G v hG => queueG_file G v (fun n hn => hS n (hG n hn)) f hf)]
+    exact src_count σs σt src tgt h _ (file_active f hf) (fun _ => rfl) t
+  rw [h1, h2, ← List.countP_append, List.take_append_drop, h3]
+
+/-- **[M] every named sample of the source ends up on a result note at that time or as an event sample at
+that time** (with multiplicity), provided no name contains `;`. -/
+theorem samples_conserved (σs σt : List Nat) (src tgt : Chart) (h : PermsOk σs σt src tgt) (hsep : noSep src = true) :
+    SamplesConserved src (copyWith σs σt src tgt) := by
+  intro t f hf
+  exact Nat.le_of_eq (file_balance σs σt src tgt h hsep t f hf)
+
+theorem srcHas_of_cnt (src : Chart) (t : Rat) (p : Note → Bool) (h : 0 < cnt p t src) : srcHas src t p = true := by
+  unfold cnt at h
+  rw [List.countP_pos_iff] at h
+  obtain ⟨n, hn, hp⟩ := h
+  simp only [srcHas, List.any_eq_true]
+  exact ⟨n, hn, hp⟩
+
+theorem cnt_pos_of_mem (c : Chart) (p : Note → Bool) (n : Note) (hn : n ∈ notesOf c) (hp : p n = true) :
+    0 < cnt p n.offset c := by
+  unfold cnt
+  rw [List.countP_pos_iff]
+  exact ⟨n, hn, by simp [hp]⟩
+
+/-- **[M] every hitsound the result carries was present in the source at the same time**: each clap, finish,
+whistle and named sample on a result note, and each event sample, has a source note of that time with the same
+bit / name; the sample-set fields are the reset value. Provided no source name contains `;`. -/
+theorem no_invention (σs σt : List Nat) (src tgt : Chart) (h : PermsOk σs σt src tgt) (hsep : noSep src = true) :
+    NoInvention src (copyWith σs σt src tgt) := by
+  have hcl := counts_le σs σt src tgt h
+  constructor
+  · intro n hn
+    have hc := hcl n.offset
+    simp only [countsLeAt, Bool.and_eq_true, decide_eq_true_eq] at hc
+    -- the sample-set fields and the shape of the note
+    have hmem := mem_out_at σs σt src tgt n hn
+    have hsets : n.sampleSet = 0 ∧ n.additionSet = 0 ∧ n.customSet = 0 := by
+      rcases zipApply_mem _ _ n hmem with hr | ⟨p, _, r, hr, rfl⟩
+      · have := df0_at_reset σs σt src tgt h n.offset n hr
+        exact ⟨this.2.2.1, this.2.2.2.1, this.2.2.2.2⟩
+      · have := df0_at_reset σs σt src tgt h _ r hr
+        cases p <;> exact ⟨this.2.2.1, this.2.2.2.1, this.2.2.2.2⟩
+    have hbit : ∀ (p : Note → Bool), cnt p n.offset (copyWith σs σt src tgt) ≤ cnt p n.offset src →
+        (!p n || srcHas src n.offset p) = true := by
+      intro p hle
+      cases hp : p n with
+      | false => rfl
+      | true =>
+        have := cnt_pos_of_mem _ p n hn hp
+        simp [srcHas_of_cnt src n.offset p (by omega)]
+    have hfile : (n.file == [] || srcHas src n.offset (fun s => s.file == n.file)) = true := by
+      by_cases hf : n.file = []
+      · simp [hf]
+      · have hb := file_balance σs σt src tgt h hsep n.offset n.file hf
+        have hpos : 0 < fileCntNotes (copyWith σs σt src tgt) n.offset n.file :=
+          cnt_pos_of_mem _ (fun s => s.file == n.file) n hn (by simp)
+        have : 0 < cnt (fun s => s.file == n.file) n.offset src := by
+          show 0 < fileCntNotes src n.offset n.file
+          omega
+        simp [srcHas_of_cnt src n.offset _ this]
+    simp only [noteFromSrc, Bool.and_eq_true]
+    refine ⟨⟨⟨⟨⟨⟨hbit isClap hc.1.1, hbit isFinish hc.1.2⟩, hbit isWhistle hc.2⟩, hfile⟩, ?_⟩, ?_⟩, ?_⟩
+    · simp [hsets.1]
+    · simp [hsets.2.1]
+    · simp [hsets.2.2]
+  · intro e he
+    -- an event sample comes from a named payload of its time
+    have he' : e ∈ (copyWith σs σt src tgt).samples.filter (fun x => x.offset == e.offset) :=
+      List.mem_filter.mpr ⟨he, by simp⟩
+    rw [copyWith_eq] at he'
+    simp only [finalEvs_at] at he'
+    obtain ⟨vol, hp⟩ := evsOf_mem _ _ e he'
+    have hused := queue_used _ _ _ (List.mem_of_mem_drop hp)
+    have hf : e.file ≠ [] := by simpa [pUsed] using hused
+    have hb := file_balance σs σt src tgt h hsep e.offset e.file hf
+    have hpos : 0 < fileCntEvs (copyWith σs σt src tgt) e.offset e.file := by
+      unfold fileCntEvs
+      rw [List.countP_pos_iff]
+      exact ⟨e, he, by simp⟩
+    have : 0 < cnt (fun s => s.file == e.file) e.offset src := by
+      show 0 < fileCntNotes src e.offset e.file
+      omega
+    exact srcHas_of_cnt src e.offset _ this
+
+/-- (time, column, length, is-hold) read off a stacked row -/
+def rowKey (n : Note) : NoteKey := (n.offset, n.column, n.length, n.length.isSome)
+
+theorem rowKey_eq_core (l : List Note) (l' : List Note) (h : l.map core = l'.map core) : l.map rowKey = l'.map rowKey := by
+  have : rowKey = (fun c : Rat × Int × Option Rat => (c.1, c.2.1, c.2.2, c.2.2.isSome)) ∘ core := rfl
+  rw [this, ← List.map_map, ← List.map_map, h]
+
+/-- **[M] the result has exactly the target's notes** (time, column, length, kind), provided every target hold
+has a length. -/
+theorem notes_preserved (σs σt : List Nat) (src tgt : Chart) (h : PermsOk σs σt src tgt)
+    (hl : holdsHaveLength tgt = true) : NotesPreserved tgt (copyWith σs σt src tgt) := by
+  unfold NotesPreserved
+  rw [copyWith_eq]
+  simp only [noteKeys]
+  -- result keys are the row keys of the final frame
+  have h1 : ((finalDf σs σt src tgt).filter (fun n => n.length.isNone)).map hitKey
+      = ((finalDf σs σt src tgt).filter (fun n => n.length.isNone)).map rowKey := by
+    apply List.map_congr_left
+    intro n hn
+    have := (List.mem_filter.mp hn).2
+    cases hlen : n.length with
+    | none => simp [hitKey, rowKey, hlen]
+    | some x => simp [hlen] at this
+  have h2 : ((finalDf σs σt src tgt).filter (fun n => n.length.isSome)).map holdKey
+      = ((finalDf σs σt src tgt).filter (fun n => n.length.isSome)).map rowKey := by
+    apply List.map_congr_left
+    intro n hn
+    have := (List.mem_filter.mp hn).2
+    cases hlen : n.length with
+    | none => simp [hlen] at this
+    | some x => simp [holdKey, rowKey, hlen]
+  rw [h1, h2, ← List.map_append]
+  have hsome : (fun n : Note => n.length.isSome) = (fun n => !(fun n : Note => n.length.isNone) n) := by
+    funext n; cases h : n.length <;> simp [h]
+  have hperm : ((finalDf σs σt src tgt).filter (fun n => n.length.isNone)
+      ++ (finalDf σs σt src tgt).filter (fun n => n.length.isSome)).Perm (finalDf σs σt src tgt) := by
+    rw [hsome]; exact List.filter_append_perm _ _
+  refine (hperm.map rowKey).trans ?_
+  have hc : (finalDf σs σt src tgt).map rowKey = (df0 σt tgt).map rowKey :=
+    rowKey_eq_core _ _ (foldl_fill_core _ _ _)
+  rw [hc]
+  unfold df0
+  have hlen : σt.length = (concatNotes (resetSamples tgt)).length := by
+    rw [h.lt]; simp [concatNotes, resetSamples]
+  refine ((gather_perm _ _ h.ht hlen).map rowKey).trans ?_
+  simp only [concatNotes, resetSamples, List.map_append, List.map_map]
+  have e1 : tgt.hits.map (rowKey ∘ (fun n => { n with length := none }) ∘ resetNote) = tgt.hits.map hitKey := by
+    apply List.map_congr_left; intro n _; rfl
+  have e2 : tgt.holds.map (rowKey ∘ resetNote) = tgt.holds.map holdKey := by
+    apply List.map_congr_left
+    intro n hn
+    simp only [holdsHaveLength, List.all_eq_true] at hl
+    have := hl n hn
+    simp only [Function.comp, rowKey, resetNote, holdKey, this]
+  rw [e1, e2]
+
+/-! ### `Bool` forms evaluated by the driver = `Prop` forms of the theorems -/
+
+theorem notesPreservedB_iff (tgt out : Chart) : notesPreservedB tgt out = true ↔ NotesPreserved tgt out :=
+  List.isPerm_iff
+
+theorem countsLeB_iff (src out : Chart) : countsLeB src out = true ↔ CountsLe src out := by
+  constructor
+  · intro h t
+    by_cases ht : ∃ n ∈ notesOf out, n.offset = t
+    · obtain ⟨n, hn, rfl⟩ := ht
+      exact List.all_eq_true.mp h n hn
+    · have hz : ∀ p, cnt p t out = 0 := by
+        intro p
+        unfold cnt
+        rw [List.countP_eq_zero]
+        intro n hn hc
+        simp only [Bool.and_eq_true, beq_iff_eq] at hc
+        exact ht ⟨n, hn, hc.1⟩
+      simp [countsLeAt, hz]
+  · intro h
+    exact List.all_eq_true.mpr (fun n _ => h n.offset)
+
+theorem noInventionB_iff (src out : Chart) : noInventionB src out = true ↔ NoInvention src out := by
+  simp [noInventionB, NoInvention, List.all_eq_true]
+
+theorem allPlacedIfRoomB_iff (src out : Chart) : allPlacedIfRoomB src out = true ↔ AllPlacedIfRoom src out := by
+  simp only [allPlacedIfRoomB, AllPlacedIfRoom, List.all_eq_true, Bool.or_eq_true, Bool.not_eq_true']
+  constructor
+  · intro h n hn hu
+    rcases h n hn with h' | h'
+    · rw [hu] at h'; exact absurd h' (by simp)
+    · exact h'
+  · intro h n hn
+    cases hu : unused n with
+    | false => exact Or.inl rfl
+    | true => exact Or.inr (h n hn hu)
+
+theorem samplesConservedB_iff (src out : Chart) : samplesConservedB src out = true ↔ SamplesConserved src out := by
+  constructor
+  · intro h t f hf
+    by_cases hs : ∃ s ∈ notesOf src, s.offset = t ∧ s.file = f
+    · obtain ⟨s, hs, rfl, rfl⟩ := hs
+      have := List.all_eq_true.mp h s hs
+      simp only [Bool.or_eq_true, beq_iff_eq, decide_eq_true_eq] at this
+      rcases this with h0 | h0
+      · exact absurd h0 hf
+      · exact h0
+    · have : fileCntNotes src t f = 0 := by
+        unfold fileCntNotes
+        rw [List.countP_eq_zero]
+        intro n hn hc
+        simp only [Bool.and_eq_true, beq_iff_eq] at hc
+        exact hs ⟨n, hn, hc.1, hc.2⟩
+      omega
+  · intro h
+    apply List.all_eq_true.mpr
+    intro s _
+    by_cases hf : s.file = []
+    · simp [hf]
+    · simp only [Bool.or_eq_true, beq_iff_eq, decide_eq_true_eq]
+      exact Or.inr (h s.offset s.file hf)
+
+/-! ### the hypotheses are needed: counterexamples on the model (the known findings D19c, D19d) -/
+
+/-- source: one hit at time 0 with the named sample `a;b`; target: one hit at time 0 -/
+def semiSrc : Chart := ⟨[⟨0, 0, none, 0, 0, 0, 0, 5, [97, 59, 98]⟩], [], []⟩
+def semiTgt : Chart := ⟨[⟨0, 0, none, 0, 0, 0, 0, 0, []⟩], [], []⟩
+
+/-- **D19c** — a `;` inside a name: the result carries `a` on the note and `b` as an event sample; the named
+sample `a;b` is on no note and in no event sample, and two names the source never had appear. -/
+theorem semicolon_counterexample :
+    ¬ SamplesConserved semiSrc (copy semiSrc semiTgt) ∧ ¬ NoInvention semiSrc (copy semiSrc semiTgt) := by
+  constructor
+  · rw [← samplesConservedB_iff]; decide +kernel
+  · rw [← noInventionB_iff]; decide +kernel
+
+/-- target: one hold whose length is NaN -/
+def nanTgt : Chart := ⟨[], [⟨0, 1, none, 0, 0, 0, 0, 0, []⟩], []⟩
+
+/-- **D19d** — a hold with a NaN length comes back as a hit. -/
+theorem nan_hold_counterexample : ¬ NotesPreserved nanTgt (copy ⟨[], [], []⟩ nanTgt) := by
+  rw [← notesPreservedB_iff]; decide +kernel
+
+/-! ### non-vacuity: the hypotheses are satisfiable on a non-trivial pair, and the model computes -/
+
+def exSrc : Chart :=
+  ⟨[⟨0, 0, none, 2, 0, 0, 0, 20, []⟩, ⟨0, 1, none, 4, 0, 0, 0, 20, [97]⟩, ⟨0, 2, none, 8, 0, 0, 0, 30, [98]⟩],
+   [⟨0, 3, some 100, 14, 0, 0, 0, 20, [99]⟩], []⟩
+def exTgt : Chart :=
+  ⟨[⟨0, 0, none, 8, 1, 0, 0, 77, [111]⟩, ⟨0, 1, none, 0, 0, 0, 0, 0, []⟩, ⟨5, 1, none, 2, 0, 0, 0, 0, []⟩],
+   [⟨0, 3, some 50, 0, 0, 0, 0, 0, []⟩], [⟨3, [111], 10⟩]⟩
+
+example : PermsOk [0, 1, 2, 3] [0, 1, 3, 2] exSrc exTgt :=
+  ⟨by unfold IsPerm; decide, by decide +kernel, by unfold IsPerm; decide, by decide +kernel⟩
+example : noSep exSrc = true ∧ holdsHaveLength exTgt = true := by decide +kernel
+/-- two volume groups (20: C C / F F / W + `a`, `c`; 30: W + `b`), three target notes at time 0: the defaults of
+group 20 take two notes, `a` the third, `c` and `b` overflow, the whistle of group 30 is dropped -/
+example : copy exSrc exTgt =
+    ⟨[⟨0, 0, none, 14, 0, 0, 0, 20, []⟩, ⟨0, 1, none, 6, 0, 0, 0, 20, []⟩, ⟨5, 1, none, 0, 0, 0, 0, 0, []⟩],
+     [⟨0, 3, some 50, 0, 0, 0, 0, 20, [97]⟩], [⟨0, [99], 20⟩, ⟨0, [98], 30⟩]⟩ := by decide +kernel
+example : allPlacedIfRoomB exSrc (copy exSrc exTgt) = true ∧ countsLeB exSrc (copy exSrc exTgt) = true := by
+  decide +kernel
+
+end Reamber.Hitsound
